@@ -212,6 +212,44 @@ def check(model, rep, tier):
             witness='try: raise E() / except E: return 1 / finally: x = 2 -- '
             'the executed step `return 1` -> `x = 2` is not an edge')
 
+  # statements of one block run one after the other: the loop that visits a
+  # statement list (body / orelse / finalbody) of any handler only visits;
+  # alternatives (the handlers of a try) each open a branch of their own
+  n_seq = 0
+  for hname, h in sorted(cls.methods.items()):
+    if not hname.startswith('visit_') or not h.params():
+      continue
+    p0 = h.params()[0]
+    for lp in ast.walk(h.node):
+      if not (isinstance(lp, ast.For) and isinstance(lp.iter, ast.Attribute) and
+              core.norm(lp.iter.value) == p0):
+        continue
+      fld = lp.iter.attr
+      calls = [core.norm(c.func) for st in lp.body for c in ast.walk(st)
+               if isinstance(c, ast.Call)]
+      visits = any(c == 'self.visit' for c in calls)
+      if not visits:
+        continue
+      branch = [c for c in calls if c.startswith('self.builder.') and c.split('.')[-1] in (
+          'new_cond_branch', 'enter_cond_section', 'exit_cond_section',
+          'enter_section', 'exit_section')]
+      if fld in ('body', 'orelse', 'finalbody'):
+        n_seq += 1
+        rep.check(not branch, 'CFG-TRY', '%s:%s:block-sequential(%s)' % (CFG, hname, fld),
+                  'the statements of a block execute in sequence: the loop over '
+                  '%s.%s must only visit them; opening a branch per statement '
+                  'makes them alternatives and drops the edge from each to the '
+                  'next' % (p0, fld), {'builder_calls_in_loop': branch}, line=lp.lineno,
+                  witness='try/except/else with two statements in the else block')
+      elif fld == 'handlers':
+        n_seq += 1
+        rep.check('self.builder.new_cond_branch' in calls, 'CFG-TRY',
+                  '%s:%s:handlers-are-alternatives' % (CFG, hname),
+                  'each except handler starts at the leaves of the try body: a '
+                  'new branch per handler', {'builder_calls_in_loop': branch},
+                  line=lp.lineno)
+  rep.unit('statement-list loops in CFG handlers', n_seq)
+
   # ---------------------------------------------------------------- CFG-SCOPE
   # which statement lists are visited while the statement is on the lexical
   # scope stack (the stack decides which loop a break/continue leaves and which
